@@ -15,7 +15,10 @@ for l in open('/verif/properties.jsonl'):
     p=json.loads(l)
     if p['id']==base: break
 s=open(brief).read()
-rep={'{ID}':base,'{id}':base.lower(),'{DIR}':d,'{TITLE}':p['title'],'{STATEMENT}':p['statement'],'{QUANT}':p.get('quantifier') or '','{WHY}':p.get('why_tests_cant') or ''}
+def q(v):
+    if isinstance(v,dict): return '; '.join(f"{k}: {', '.join(x) if isinstance(x,list) else x}" for k,x in v.items())
+    return str(v or '')
+rep={'{ID}':base,'{id}':base.lower(),'{DIR}':d,'{TITLE}':p['title'],'{STATEMENT}':p['statement'],'{QUANT}':q(p.get('quantifier')),'{WHY}':str(p.get('why_tests_cant') or '')}
 for k,v in rep.items(): s=s.replace(k,v)
 open(d+'/out/BRIEF.md','w').write(s)
 P
